@@ -180,6 +180,8 @@ class JobWorld:
             j.phase = "vanished"
             j.script = []
             return None
+        if s == "failed":
+            return "failed/ERR"      # what a real job script sends from its ERR trap
         return s
     def kill(self, key):
         j = self.jobs.get(key)
